@@ -1,10 +1,344 @@
-//! C03 — not built yet.
-use crate::{sx::Sx, Emitter};
+//! C03 — hash_and_sign_event / verify_event.  See coq/C03/Run.v for the case formats.
+use std::{cell::RefCell, collections::BTreeMap};
 
-pub fn run(_tier: &str, _seed: u64, _em: &mut Emitter) {}
+use ruma_common::{
+    canonical_json::redact, serde::Base64, CanonicalJsonObject, CanonicalJsonValue, EventId, RoomVersionId, UserId,
+};
+use ruma_signatures::{hash_and_sign_event, verify_event, PublicKeyMap, PublicKeySet, Verified};
 
-pub fn replay(_case: &Sx) -> Option<Sx> {
-    None
+use crate::{
+    c02::{keypair, Recording, N_KEYS},
+    jgen::{gen_json, gen_str},
+    rng::Rng,
+    sx::{guarded, obj_to_sx, sx_to_obj, Sx},
+    Emitter,
+};
+
+const SERVERS: &[&str] = &["a.example", "b.example", "c.example:8448", "d.example"];
+const TYPES: &[&str] = &[
+    "m.room.member", "m.room.message", "m.room.create", "m.room.power_levels", "m.room.join_rules", "m.room.redaction",
+    "m.room.aliases", "m.room.history_visibility", "org.example.custom",
+];
+
+type Pk = BTreeMap<String, BTreeMap<String, Vec<u8>>>;
+type Log = Vec<(usize, Vec<u8>, Vec<u8>)>;
+
+fn s(x: &str) -> CanonicalJsonValue {
+    CanonicalJsonValue::String(x.to_owned())
+}
+
+fn rules(v: u32) -> ruma_common::room_version_rules::RoomVersionRules {
+    RoomVersionId::try_from(v.to_string().as_str()).unwrap().rules().unwrap()
+}
+
+/// The real parse results for the identifiers a check may look at.
+fn id_table(ev: &CanonicalJsonObject) -> Sx {
+    let mut rows = vec![];
+    let mut user = |x: Option<&CanonicalJsonValue>| {
+        if let Some(CanonicalJsonValue::String(st)) = x {
+            let r = <&UserId>::try_from(st.as_str()).ok().map(|u| Sx::s(u.server_name().as_str()));
+            rows.push(Sx::L(vec![Sx::N(0), Sx::s(st), Sx::opt(r)]));
+        }
+    };
+    user(ev.get("sender"));
+    user(ev.get("content").and_then(|c| c.as_object()).and_then(|c| c.get("join_authorised_via_users_server")));
+    if let Some(CanonicalJsonValue::String(st)) = ev.get("event_id") {
+        let r = <&EventId>::try_from(st.as_str()).ok().and_then(|e| e.server_name().map(|n| Sx::s(n.as_str())));
+        rows.push(Sx::L(vec![Sx::N(1), Sx::s(st), Sx::opt(r)]));
+    }
+    Sx::L(rows)
+}
+
+fn pk_sx(pk: &Pk) -> Sx {
+    Sx::L(
+        pk.iter()
+            .map(|(e, ks)| {
+                Sx::L(vec![Sx::s(e), Sx::L(ks.iter().map(|(k, b)| Sx::L(vec![Sx::s(k), Sx::S(b.clone())])).collect())])
+            })
+            .collect(),
+    )
+}
+
+fn run_verify(v: u32, ev: &CanonicalJsonObject, pk: &Pk) -> Sx {
+    let mut map = PublicKeyMap::new();
+    for (e, ks) in pk {
+        let mut set = PublicKeySet::new();
+        for (kid, bytes) in ks {
+            set.insert(kid.clone(), Base64::new(bytes.clone()));
+        }
+        map.insert(e.clone(), set);
+    }
+    let ev = ev.clone();
+    guarded(move || match verify_event(&map, &ev, &rules(v)) {
+        Ok(Verified::All) => Sx::ok(Sx::N(0)),
+        Ok(Verified::Signatures) => Sx::ok(Sx::N(1)),
+        Err(_) => Sx::err(0),
+    })
+}
+
+fn verify_case(v: u32, ev: &CanonicalJsonObject, pk: &Pk, table: &[(Vec<u8>, Vec<u8>, Vec<u8>)], expect: i64) -> (Sx, Sx) {
+    let tbl = Sx::L(table.iter().map(|(k, m, sg)| Sx::L(vec![Sx::S(k.clone()), Sx::S(m.clone()), Sx::S(sg.clone())])).collect());
+    let case = Sx::L(vec![Sx::N(0), Sx::n(v), obj_to_sx(ev), pk_sx(pk), tbl, id_table(ev), Sx::n(expect)]);
+    (case, run_verify(v, ev, pk))
+}
+
+fn run_sign(v: u32, ev: &CanonicalJsonObject, entity: &str, k: usize, kv: &str) -> (Sx, Log) {
+    let log = RefCell::new(vec![]);
+    let out = {
+        let log = &log;
+        let mut o = ev.clone();
+        let entity = entity.to_owned();
+        let kv = kv.to_owned();
+        guarded(std::panic::AssertUnwindSafe(move || {
+            let kp = Recording { inner: keypair(k, &kv), idx: k, log };
+            match hash_and_sign_event(&entity, &kp, &mut o, &rules(v).redaction) {
+                Ok(()) => Sx::ok(obj_to_sx(&o)),
+                Err(_) => Sx::err(0),
+            }
+        }))
+    };
+    (out, log.into_inner())
+}
+
+fn sign_case(v: u32, ev: &CanonicalJsonObject, entity: &str, k: usize, kv: &str) -> (Sx, Sx) {
+    let (out, log) = run_sign(v, ev, entity, k, kv);
+    let tbl = Sx::L(log.iter().map(|(k, m, sg)| Sx::L(vec![Sx::n(*k as i64), Sx::S(m.clone()), Sx::S(sg.clone())])).collect());
+    let case = Sx::L(vec![Sx::N(1), Sx::n(v), obj_to_sx(ev), Sx::s(entity), Sx::n(k as i64), Sx::s(kv), tbl, id_table(ev)]);
+    (case, out)
+}
+
+pub fn replay(case: &Sx) -> Option<Sx> {
+    let l = case.as_list()?;
+    let v = l.get(1)?.as_int()? as u32;
+    let ev = sx_to_obj(l.get(2)?)?;
+    match l.first()?.as_int()? {
+        0 => {
+            let mut pk = Pk::new();
+            for e in l.get(3)?.as_list()? {
+                let e = e.as_list()?;
+                let mut ks = BTreeMap::new();
+                for kv in e.get(1)?.as_list()? {
+                    let kv = kv.as_list()?;
+                    ks.insert(kv.first()?.as_string()?, kv.get(1)?.as_bytes()?.to_vec());
+                }
+                pk.insert(e.first()?.as_string()?, ks);
+            }
+            Some(run_verify(v, &ev, &pk))
+        }
+        _ => Some(run_sign(v, &ev, &l.get(3)?.as_string()?, l.get(4)?.as_int()? as usize, &l.get(5)?.as_string()?).0),
+    }
 }
 
 pub fn dump(_dir: &str) {}
+
+fn gen_pdu(r: &mut Rng, v: u32) -> CanonicalJsonObject {
+    let mut ev = CanonicalJsonObject::new();
+    let ty = *r.pick(TYPES);
+    let sender_server = *r.pick(SERVERS);
+    ev.insert("type".into(), s(ty));
+    ev.insert("sender".into(), s(&format!("@alice:{sender_server}")));
+    ev.insert("room_id".into(), s("!room:a.example"));
+    ev.insert("origin_server_ts".into(), CanonicalJsonValue::Integer((r.below(100000) as i32).into()));
+    ev.insert("depth".into(), CanonicalJsonValue::Integer((r.below(100) as i32).into()));
+    if v <= 2 || r.chance(1, 5) {
+        ev.insert("event_id".into(), s(&format!("$ev{}:{}", r.below(100), r.pick(SERVERS))));
+    }
+    if r.chance(1, 3) {
+        ev.insert("state_key".into(), s(&format!("@bob:{}", r.pick(SERVERS))));
+    }
+    if r.chance(1, 3) {
+        ev.insert("origin".into(), s(sender_server));
+    }
+    let mut c = CanonicalJsonObject::new();
+    if ty == "m.room.member" || r.chance(1, 6) {
+        c.insert("membership".into(), s(*r.pick(&["join", "invite", "leave", "ban", "knock"])));
+        if r.chance(1, 3) {
+            let mut tpi = CanonicalJsonObject::new();
+            tpi.insert("display_name".into(), s("x"));
+            let mut signed = CanonicalJsonObject::new();
+            signed.insert("token".into(), s("tok"));
+            tpi.insert("signed".into(), CanonicalJsonValue::Object(signed));
+            c.insert("third_party_invite".into(), CanonicalJsonValue::Object(tpi));
+        }
+    }
+    if r.chance(1, 3) {
+        c.insert("join_authorised_via_users_server".into(), s(&format!("@carol:{}", r.pick(SERVERS))));
+    }
+    if r.chance(1, 2) {
+        c.insert("body".into(), s(&gen_str(r)));
+    }
+    if r.chance(1, 4) {
+        c.insert(gen_str(r), gen_json(r, 1));
+    }
+    ev.insert("content".into(), CanonicalJsonValue::Object(c));
+    if r.chance(1, 3) {
+        ev.insert("unsigned".into(), gen_json(r, 1));
+    }
+    if r.chance(1, 4) {
+        ev.insert(gen_str(r), gen_json(r, 1));
+    }
+    ev
+}
+
+/// Sign `ev` by the listed servers (each with key index = position in SERVERS, version "1").
+fn sign_by(v: u32, ev: &CanonicalJsonObject, servers: &[&str]) -> Option<(CanonicalJsonObject, Pk, Vec<(Vec<u8>, Vec<u8>, Vec<u8>)>)> {
+    let log = RefCell::new(vec![]);
+    let mut o = ev.clone();
+    let mut pk = Pk::new();
+    for srv in servers {
+        let k = SERVERS.iter().position(|x| x == srv).unwrap() % N_KEYS;
+        let kp = Recording { inner: keypair(k, "1"), idx: k, log: &log };
+        hash_and_sign_event(srv, &kp, &mut o, &rules(v).redaction).ok()?;
+        pk.entry((*srv).to_owned()).or_default().insert("ed25519:1".into(), keypair(k, "1").public_key().to_vec());
+    }
+    let table = log.borrow().iter().map(|(k, m, sg)| (keypair(*k, "1").public_key().to_vec(), m.clone(), sg.clone())).collect();
+    Some((o, pk, table))
+}
+
+/// The servers the room version demands, computed by the harness from well-formed ids.
+fn demanded(v: u32, ev: &CanonicalJsonObject) -> Vec<String> {
+    let srv_of = |id: &str| id.split_once(':').map(|x| x.1.to_owned());
+    let c = ev.get("content").and_then(|c| c.as_object());
+    let ty = ev.get("type").and_then(|t| t.as_str()).unwrap_or("");
+    let membership = c.and_then(|c| c.get("membership")).and_then(|m| m.as_str()).unwrap_or("");
+    let tpi = ty == "m.room.member" && membership == "invite" && c.is_some_and(|c| c.contains_key("third_party_invite"));
+    let mut out = vec![];
+    if !tpi {
+        out.extend(ev.get("sender").and_then(|x| x.as_str()).and_then(srv_of));
+    }
+    if v <= 2 {
+        out.extend(ev.get("event_id").and_then(|x| x.as_str()).and_then(srv_of));
+    }
+    if v >= 8 {
+        out.extend(c.and_then(|c| c.get("join_authorised_via_users_server")).and_then(|x| x.as_str()).and_then(srv_of));
+    }
+    out.sort();
+    out.dedup();
+    out
+}
+
+pub fn run(tier: &str, seed: u64, em: &mut Emitter) {
+    let mut r = Rng::new(seed ^ 0xC03);
+    let n = if tier == "thorough" { 15_000 } else { 700 };
+    for i in 0..n {
+        let v = 1 + (i % 11) as u32;
+        let ev = gen_pdu(&mut r, v);
+        // signing itself
+        let (case, out) = sign_case(v, &ev, *r.pick(SERVERS), r.below(N_KEYS), "1");
+        em.emit("sign", case, out);
+
+        let need = demanded(v, &ev);
+        let need_refs: Vec<&str> = need.iter().map(String::as_str).collect();
+        // signed by exactly the demanded servers (plus sometimes one more)
+        let mut signers = need_refs.clone();
+        if signers.is_empty() || r.chance(1, 4) {
+            let extra = *r.pick(SERVERS);
+            if !signers.contains(&extra) {
+                signers.push(extra);
+            }
+        }
+        let Some((signed, pk, table)) = sign_by(v, &ev, &signers) else { continue };
+        let (case, out) = verify_case(v, &signed, &pk, &table, 1);
+        em.emit("verify-honest", case, out);
+
+        // redacted copy: signatures still valid
+        if let Ok(red) = redact(signed.clone(), &rules(v).redaction, None) {
+            // a third-party invite loses its marker under redaction before v11: then the sender's
+            // server is demanded of the redacted copy although the original did not need it
+            let tpi_lost = demanded(v, &red) != need;
+            let (case, out) = verify_case(v, &red, &pk, &table, if tpi_lost { 0 } else { 2 });
+            em.emit("verify-redacted-copy", case, out);
+        }
+
+        for _ in 0..5 {
+            let mut o = signed.clone();
+            let mut pk2 = pk.clone();
+            let (tag, expect) = match r.below(9) {
+                0 => {
+                    o.insert("unsigned".into(), gen_json(&mut r, 2));
+                    ("mutate-unsigned", 1)
+                }
+                1 => {
+                    // a hashed field that redaction strips (content.body / unknown top-level key)
+                    if let Some(CanonicalJsonValue::Object(c)) = o.get_mut("content") {
+                        c.insert("body".into(), s(&format!("changed{}", r.below(1000))));
+                    }
+                    ("mutate-stripped-field", 0)
+                }
+                2 => {
+                    o.insert("depth".into(), CanonicalJsonValue::Integer(1000.into()));
+                    ("mutate-kept-field", 0)
+                }
+                3 => {
+                    o.insert("origin_server_ts".into(), CanonicalJsonValue::Integer(7.into()));
+                    ("mutate-kept-field", 0)
+                }
+                4 => {
+                    // drop one signer
+                    if let Some(CanonicalJsonValue::Object(sm)) = o.get_mut("signatures") {
+                        let ents: Vec<String> = sm.keys().cloned().collect();
+                        if !ents.is_empty() {
+                            sm.remove(r.pick(&ents));
+                        }
+                    }
+                    ("drop-signature", 0)
+                }
+                5 => {
+                    let ents: Vec<String> = pk2.keys().cloned().collect();
+                    if !ents.is_empty() {
+                        pk2.remove(r.pick(&ents));
+                    }
+                    ("drop-keys", 0)
+                }
+                6 => {
+                    if let Some(CanonicalJsonValue::Object(h)) = o.get_mut("hashes") {
+                        let v = match r.below(4) {
+                            0 => s("AAAA"),
+                            1 => s("not base64!"),
+                            2 => gen_json(&mut r, 0),
+                            _ => {
+                                let cur = h.get("sha256").and_then(|x| x.as_str()).unwrap_or("").to_owned();
+                                s(&format!("{cur}="))
+                            }
+                        };
+                        h.insert("sha256".into(), v);
+                    }
+                    ("mutate-hashes", 0)
+                }
+                7 => {
+                    match r.below(3) {
+                        0 => {
+                            o.remove("hashes");
+                        }
+                        1 => {
+                            o.insert("hashes".into(), gen_json(&mut r, 0));
+                        }
+                        _ => {
+                            o.insert("signatures".into(), gen_json(&mut r, 0));
+                        }
+                    }
+                    ("mutate-shape", 0)
+                }
+                _ => {
+                    // change who must have signed
+                    match r.below(3) {
+                        0 => {
+                            o.insert("sender".into(), s(&format!("@mallory:{}", r.pick(SERVERS))));
+                        }
+                        1 => {
+                            o.insert("sender".into(), s("not a user id"));
+                        }
+                        _ => {
+                            if let Some(CanonicalJsonValue::Object(c)) = o.get_mut("content") {
+                                c.insert("join_authorised_via_users_server".into(), s(&format!("@x:{}", r.pick(SERVERS))));
+                            }
+                        }
+                    }
+                    ("mutate-required-signers", 0)
+                }
+            };
+            let (case, out) = verify_case(v, &o, &pk2, &table, expect);
+            em.emit(tag, case, out);
+        }
+    }
+}
